@@ -299,6 +299,43 @@ type funcKDC struct {
 	handler func(req []byte) []byte
 }
 
+// every request nonce the loopback KDCs of this process have seen (a reply answers the request whose nonce it
+// carries: nonces that repeat make an earlier reply pass for a later request)
+var (
+	nonceMu   sync.Mutex
+	nonceSeen = map[int]int{}
+)
+
+func noteNonce(req []byte) {
+	var a messages.ASReq
+	var tg messages.TGSReq
+	n := 0
+	if a.Unmarshal(req) == nil {
+		if a.PAData.Contains(2) {
+			return // the pre-authenticated repeat of a request keeps the request's nonce
+		}
+		n = a.ReqBody.Nonce
+	} else if tg.Unmarshal(req) == nil {
+		n = tg.ReqBody.Nonce
+	} else {
+		return
+	}
+	nonceMu.Lock()
+	nonceSeen[n]++
+	nonceMu.Unlock()
+}
+
+// nonceRepeats: how many requests carried a nonce that an earlier request had carried
+func nonceRepeats() (repeats, total int) {
+	nonceMu.Lock()
+	defer nonceMu.Unlock()
+	for _, k := range nonceSeen {
+		total += k
+		repeats += k - 1
+	}
+	return
+}
+
 func startFuncKDC(h func(req []byte) []byte) *funcKDC {
 	port, l, u := reservePort()
 	u.Close()
@@ -324,6 +361,7 @@ func startFuncKDC(h func(req []byte) []byte) *funcKDC {
 				if _, err := io.ReadFull(c, req); err != nil {
 					return
 				}
+				noteNonce(req)
 				k.mu.Lock()
 				rb := k.handler(req)
 				k.mu.Unlock()
